@@ -413,6 +413,45 @@ pub struct TableSubj {
     body: u64,
     has_imsic: bool,
     last_img: Option<Vec<u8>>,
+    /// C11 only: the same table built from the same history with every entry's option calls
+    /// de-duplicated and put in canonical order. "In any order and any number of times" means the
+    /// two tables must serialise identically — including everything derived from the entries
+    /// (checksum, length), which is where a non-idempotent option shows up.
+    shadow: Option<Box<TableSubj>>,
+}
+
+/// Remove exact repeats of option calls (keeping the last of each) and move argument-less options
+/// to the front in a fixed order. Sub-element adders and value-carrying calls keep their order.
+pub fn canonical_options(op: &Op) -> Op {
+    let mut o = op.clone();
+    let is_bool = |k: K| {
+        use K::*;
+        matches!(k, OptEnabled | OptHotplug | OptNonVolatile | OptArch | PnPhysical | PnValid | PnThread | PnLeaf | PnIdentical | WrType2 | WrType3 | WrVolatile | WrPersistent | WrFixed | LocNonSeq | LocMinTransfer
+            | TsActiveLow | TsEdge | TsPnp | FaAcpiEnable | FaAcpiDisable)
+    };
+    let is_setter = |k: K| {
+        use K::*;
+        matches!(k, OptProxDomain | CnSize | CnSets | CnAssoc | CnAlloc | CnType | CnPolicy | CnLineSize | CnId | GcSet | MsFrameId | MsBase | MsSpi | HeSet | LocSetInit | LocSetTarget | LocSetEntry
+            | TsLogArea | TsSciGpe | TsGsi | TsPci | TsBase | TsConfig | FaFlag | FaProfile | FaGpe | FaPoke)
+    };
+    // exact repeats: keep the last occurrence
+    let mut keep = vec![true; o.s.len()];
+    for i in 0..o.s.len() {
+        if (is_bool(o.s[i].k) || is_setter(o.s[i].k)) && o.s[i + 1..].iter().any(|later| *later == o.s[i]) {
+            keep[i] = false;
+        }
+    }
+    let mut it = keep.iter();
+    o.s.retain(|_| *it.next().unwrap());
+    // argument-less options first, in kind order (they only ever or a bit in)
+    // (FaAcpiEnable/FaAcpiDisable assign two bytes each: they are not reordered)
+    let movable = |k: K| is_bool(k) && !matches!(k, K::FaAcpiEnable | K::FaAcpiDisable);
+    let mut bools: Vec<Op> = o.s.iter().filter(|c| movable(c.k)).cloned().collect();
+    bools.sort_by_key(|c| c.k);
+    let rest: Vec<Op> = o.s.iter().filter(|c| !movable(c.k)).cloned().collect();
+    o.s = bools;
+    o.s.extend(rest);
+    o
 }
 
 impl TableSubj {
@@ -438,7 +477,15 @@ impl TableSubj {
             K::Rqsc => Tab::Rqsc(rqsc::RQSC::new(a, b, c)),
             _ => unreachable!(),
         };
-        TableSubj { subject: root.k, tab, ents: Vec::new(), h: Handles::default(), body: 0, has_imsic: false, last_img: None }
+        TableSubj { subject: root.k, tab, ents: Vec::new(), h: Handles::default(), body: 0, has_imsic: false, last_img: None, shadow: None }
+    }
+
+    fn with_shadow(root: &Op) -> TableSubj {
+        let mut t = TableSubj::new(root);
+        if matches!(root.k, K::Madt | K::Srat | K::Pptt | K::Cedt | K::Hmat | K::Hest) {
+            t.shadow = Some(Box::new(TableSubj::new(root)));
+        }
+        t
     }
 
     fn aml(&self) -> &dyn Aml {
@@ -464,6 +511,7 @@ impl TableSubj {
         match (&mut self.tab, be) {
             (Tab::Xsdt(t), Built::U64(v)) => t.add_entry(v),
             (Tab::Mcfg(t), Built::Ecam(a, b, c, d)) => t.add_ecam(a, b, c, d),
+            (Tab::Madt(t), Built::RawPair(x)) => t.add_structure(x),
             (Tab::Madt(t), Built::Lapic(x)) => t.add_structure(x),
             (Tab::Madt(t), Built::IoApic(x)) => t.add_structure(x),
             (Tab::Madt(t), Built::Gicc(x)) => t.add_structure(x),
@@ -553,7 +601,7 @@ impl TableSubj {
         match self.subject {
             Xsdt => k == XAddEntry,
             Mcfg => k == McAddEcam,
-            Madt => matches!(k, MaLapic | MaIoApic | MaGicc | MaGicd | MaGicMsi | MaGicr | MaGicIts | MaRintc | MaImsic | MaAplic | MaPlic),
+            Madt => matches!(k, MaLapic | MaIoApic | MaGicc | MaGicd | MaGicMsi | MaGicr | MaGicIts | MaRintc | MaImsic | MaAplic | MaPlic | MaRawPair),
             Srat => matches!(k, SrMemAff | SrGenInit | SrRintcAff),
             Hmat => matches!(k, HmMemProx | HmSysLoc | HmMsc),
             Pptt => matches!(k, PpProc | PpCache),
@@ -634,6 +682,17 @@ impl Subject for TableSubj {
     fn apply(&mut self, op: &Op, cx: &mut Cx) -> Applied {
         if !self.belongs(op.k) {
             return Applied::ok();
+        }
+        if cx.on(P11) {
+            if let Some(sh) = self.shadow.as_mut() {
+                let cop = canonical_options(op);
+                if cop != *op {
+                    cx.probe("c11.shadow_entries_canonicalised");
+                }
+                let mut quiet = Cx::new(0, self.subject);
+                quiet.stats_on = false;
+                let _ = sh.apply(&cop, &mut quiet);
+            }
         }
         let be = match build::build(op, &self.h) {
             Ok(Some(be)) => be,
@@ -737,6 +796,13 @@ impl Subject for TableSubj {
                     self.has_imsic = true;
                 }
                 self.body += bytes.len() as u64;
+                if kind == K::MaRawPair {
+                    // one caller-defined block, two structures for anyone who walks the body
+                    for half in bytes.chunks(8) {
+                        self.ents.push(Ent { kind: K::MaLapic, tcode: 0, bytes: half.to_vec(), hclass: 0, hraw: 0, refs: Vec::new(), subn: 0, aux: 0, matrix: None });
+                    }
+                    return Applied::ok();
+                }
                 self.ents.push(Ent { kind, tcode: be.tcode, bytes, hclass, hraw, refs: be.refs, subn: be.subn, aux: be.aux, matrix });
                 Applied::ok()
             }
@@ -875,6 +941,17 @@ impl Subject for TableSubj {
                 }
             }
         }
+        // ---------------- C11: order and repetition of option calls leave the table unchanged ----------------
+        if cx.on(P11) {
+            if let Some(sh) = &self.shadow {
+                if let Ok(simg) = catch(|| to_vec(sh.aml())) {
+                    if simg != img {
+                        let at = simg.iter().zip(img.iter()).position(|(x, y)| x != y).unwrap_or(simg.len().min(img.len()));
+                        cx.fail(P11, "order_and_repetition_independent", format!("{}: the table differs at byte {} from the same table built with every entry's option calls de-duplicated and in canonical order (len {} vs {})", self.subject.name(), at, img.len(), simg.len()));
+                    }
+                }
+            }
+        }
         // ---------------- C12: HMAT latency/bandwidth matrices inside the table ----------------
         if cx.on(P12) && self.subject == K::Hmat {
             let mut p = sp.first;
@@ -954,7 +1031,9 @@ impl Subject for SlitSubj {
                 // the statement is silent about out-of-range pairs: the cell model cannot follow, but
                 // checksum and length (C01/C02) must survive whatever the crate chose to do
                 cx.probe("fault.refusal.out_of_range_accepted");
-                self.lost = true;
+                // The matrix has a fixed size, so an accepted out-of-range pair can only have done
+                // nothing or have written some in-range cell. The model treats it as a no-op and the
+                // comparison goes on: "assignments to one cell never disturb another" covers the rest.
                 Applied::ok()
             }
             (Err(_), false) => {
@@ -1002,6 +1081,7 @@ struct SysLocSubj {
     root: Op,
     last: Option<Vec<u8>>,
     writes: Vec<u8>,
+    lists_lost: bool,
 }
 
 impl Subject for SysLocSubj {
@@ -1046,7 +1126,10 @@ impl Subject for SysLocSubj {
                         cx.stop = true;
                     }
                     (Ok(()), false) => {
-                        cx.stop = true;
+                        // an accepted out-of-range list index: the lists can no longer be followed, the
+                        // matrix cells still can (nothing assigned to them)
+                        cx.probe("fault.refusal.out_of_range_accepted");
+                        self.lists_lost = true;
                     }
                     (Err(_), false) => {
                         cx.probe("fault.refusal.out_of_range_index");
@@ -1113,12 +1196,12 @@ impl Subject for SysLocSubj {
                     break;
                 }
             }
-            for (k, v) in self.inits.iter().enumerate() {
+            for (k, v) in self.inits.iter().enumerate().filter(|_| !self.lists_lost) {
                 if le32(img, 32 + 4 * k) != Some(*v) {
                     cx.fail(P12, "hmat_cell_undisturbed", format!("SLLBI: initiator list entry {} holds {:?}, last assigned {:#x}", k, le32(img, 32 + 4 * k), v));
                 }
             }
-            for (k, v) in self.targs.iter().enumerate() {
+            for (k, v) in self.targs.iter().enumerate().filter(|_| !self.lists_lost) {
                 if le32(img, 32 + 4 * self.i + 4 * k) != Some(*v) {
                     cx.fail(P12, "hmat_cell_undisturbed", format!("SLLBI: target list entry {} holds {:?}, last assigned {:#x}", k, le32(img, 32 + 4 * self.i + 4 * k), v));
                 }
@@ -1253,6 +1336,11 @@ impl Subject for TcpaServerSubj {
     fn check(&self, img: &[u8], cx: &mut Cx) {
         if cx.on(P11) {
             c11_struct(&self.root, img, &|o: &Op| tcpa_build(o), cx);
+            if let Some(c) = tcpa_build(&canonical_options(&self.root)) {
+                if c != img {
+                    cx.fail(P11, "order_and_repetition_independent", format!("TcpaServer: the table differs from the one built from the same option calls de-duplicated and in canonical order [{}]", self.root.brief()));
+                }
+            }
         }
     }
 }
@@ -1321,7 +1409,7 @@ fn fadt_apply(b: fadt::FADTBuilder, op: &Op) -> fadt::FADTBuilder {
 }
 
 /// number of public FADTBuilder fields `FaPoke` can write directly (the builder has no method for them)
-pub const FADT_POKE_FIELDS: u64 = 12;
+pub const FADT_POKE_FIELDS: u64 = 13;
 
 /// (offset, width) in the FADT image of the public field `FaPoke` index i writes — ACPI 6.5 table 5.9
 pub fn fadt_poke_range(i: u64) -> (usize, usize) {
@@ -1337,7 +1425,8 @@ pub fn fadt_poke_range(i: u64) -> (usize, usize) {
         8 => (268, 8),  // Hypervisor Vendor Identity
         9 => (54, 1),   // S4BIOS_REQ
         10 => (96, 2),  // P_LVL2_LAT
-        _ => (108, 1),  // CENTURY
+        11 => (108, 1), // CENTURY
+        _ => (9, 1),    // the checksum byte itself: finalize() must not trust what it finds there
     }
 }
 
@@ -1355,7 +1444,8 @@ fn fadt_poke(mut b: fadt::FADTBuilder, op: &Op) -> fadt::FADTBuilder {
         8 => b.hypervisor_vendor_identity = v.into(),
         9 => b.s4bios_req = v as u8,
         10 => b.p_lvl2_lat = (v as u16).into(),
-        _ => b.century = v as u8,
+        11 => b.century = v as u8,
+        _ => b.checksum = v as u8,
     }
     b
 }
@@ -1393,6 +1483,11 @@ impl Subject for FadtSubj {
     fn check(&self, img: &[u8], cx: &mut Cx) {
         if cx.on(P11) {
             c11_struct(&self.root, img, &|o: &Op| fadt_build(o), cx);
+            if let Some(c) = fadt_build(&canonical_options(&self.root)) {
+                if c != img {
+                    cx.fail(P11, "order_and_repetition_independent", format!("Fadt: the table differs from the one built from the same option calls de-duplicated and in canonical order [{}]", self.root.brief()));
+                }
+            }
         }
     }
 }
@@ -1809,7 +1904,13 @@ fn len_class(n: usize) -> u64 {
 fn make_subject(root: &Op, cx: &mut Cx) -> Option<Box<dyn Subject>> {
     let (a, b, c) = oem(root);
     Some(match root.k {
-        K::Xsdt | K::Mcfg | K::Madt | K::Srat | K::Hmat | K::Pptt | K::Rhct | K::Rimt | K::Viot | K::Cedt | K::Hest | K::Rqsc => Box::new(TableSubj::new(root)),
+        K::Xsdt | K::Mcfg | K::Madt | K::Srat | K::Hmat | K::Pptt | K::Rhct | K::Rimt | K::Viot | K::Cedt | K::Hest | K::Rqsc => {
+            if cx.on(P11) {
+                Box::new(TableSubj::with_shadow(root))
+            } else {
+                Box::new(TableSubj::new(root))
+            }
+        }
         K::Slit => {
             let n = (root.arg(2) % 1025) as usize;
             Box::new(SlitSubj { t: slit::SLIT::new(a, b, c, n as u32), n, m: vec![10; n * n], last_img: None, touched: vec![0; n * n], lost: false })
@@ -1818,7 +1919,7 @@ fn make_subject(root: &Op, cx: &mut Cx) -> Option<Box<dyn Subject>> {
             let (s, i, t) = build::build_sysloc(&Op { k: K::HmSysLoc, a: root.a[2..].to_vec(), b: vec![], s: vec![] });
             let mut r = Op::new(K::SysLocSubj);
             r.a = root.a[2..].to_vec();
-            Box::new(SysLocSubj { s, i, t, m: vec![0xffff; i * t], inits: vec![0; i], targs: vec![0; t], root: r, last: None, writes: vec![0; i * t] })
+            Box::new(SysLocSubj { s, i, t, m: vec![0xffff; i * t], inits: vec![0; i], targs: vec![0; t], root: r, last: None, writes: vec![0; i * t], lists_lost: false })
         }
         K::Tpm2 => {
             let class = if root.arg(2) % 2 == 0 { tpm2::PlatformClass::Client } else { tpm2::PlatformClass::Server };
